@@ -4001,6 +4001,9 @@ func _select(n *node) {
 	}
 
 	n.exec = func(f *frame) bltn {
+		// The select cases are local to each execution, as the same statement
+		// may be executed by several goroutines at the same time.
+		cases := append([]reflect.SelectCase(nil), cases...)
 		f.mutex.RLock()
 		cases[nbClause] = f.done
 		f.mutex.RUnlock()
